@@ -76,11 +76,18 @@ class Builder:
 
 
 class ClassInfo:
-    def __init__(self, tree: ast.Module, cls: str):
+    def __init__(self, tree: ast.Module, cls: str, base: "ClassInfo | None" = None):
         self.tree = tree
         self.cls = cls
-        init = find_function(tree, f"{cls}.__init__")
-        self.consts: dict[str, object] = {}
+        self.base = base
+        self.consts: dict[str, object] = dict(base.consts) if base else {}
+        self.defaults = {}
+        try:
+            init = find_function(tree, f"{cls}.__init__")
+        except Untranslatable:
+            if base is None:
+                raise
+            init = ast.parse("def f():\n    pass").body[0]
         for st in init.body:
             if (isinstance(st, ast.Assign) and len(st.targets) == 1 and isinstance(st.targets[0], ast.Attribute)
                     and isinstance(st.targets[0].value, ast.Name) and st.targets[0].value.id == "self"):
@@ -90,9 +97,12 @@ class ClassInfo:
                     pass
 
     def method(self, name: str) -> ast.FunctionDef:
-        return find_function(self.tree, f"{self.cls}.{name}")
-
-    defaults: dict = {}
+        try:
+            return find_function(self.tree, f"{self.cls}.{name}")
+        except Untranslatable:
+            if self.base is not None:
+                return self.base.method(name)
+            raise
 
     def const(self, node: ast.AST):
         """value of a literal, of `self._x` set to a literal in __init__, or of a parameter with a literal default"""
@@ -570,7 +580,343 @@ def _c19_extra():
     return "open DirectVerif.DataConsistency\n\n" + "\n".join(out), status
 
 
-EXTRA["C19"] = _c19_extra
+# =====================================================================================================
+# Phase 2: the same physics inside the unrolled models — one plan per *site*
+from ..gen import all_stmts  # noqa: E402
+
+NN = "direct/nn/"
+
+
+def _info(file: str, cls: str, base: ClassInfo | None = None) -> ClassInfo:
+    return ClassInfo(parse_file(REPO / file), cls, base)
+
+
+def _with_defaults(info: ClassInfo, fn: ast.FunctionDef) -> ClassInfo:
+    """parameters with literal defaults (`coil_dim: int = 1`) resolve like constants"""
+    info.defaults = {}
+    args = fn.args.args
+    for a, d in zip(args[len(args) - len(fn.args.defaults):], fn.args.defaults):
+        try:
+            info.defaults[a.arg] = ast.literal_eval(d)
+        except (ValueError, SyntaxError):
+            pass
+    return info
+
+
+def _assigns(fn, target: str) -> list[ast.Assign]:
+    return [st for st in all_stmts(fn) if isinstance(st, ast.Assign) and len(st.targets) == 1
+            and ast.unparse(st.targets[0]) == target]
+
+
+def _nth(xs, n, what):
+    if len(xs) <= n:
+        raise Untranslatable(f"{what} #{n} not found")
+    return xs[n]
+
+
+def _calls(node: ast.AST, func_text: str) -> list[ast.Call]:
+    """calls to `func_text` inside `node`, outermost first, in source order"""
+    out = []
+
+    def walk(n):
+        if isinstance(n, ast.Call) and ast.unparse(n.func) == func_text:
+            out.append(n)
+        for c in ast.iter_child_nodes(n):
+            walk(c)
+    walk(node)
+    return out
+
+
+def _listcomp_elt(node: ast.AST, var: str) -> ast.AST:
+    for n in ast.walk(node):
+        if isinstance(n, ast.ListComp) and len(n.generators) == 1 and ast.unparse(n.generators[0].target) == var:
+            return n.elt
+    raise Untranslatable(f"list comprehension over `{var}` not found")
+
+
+class SiteTr:
+    def __init__(self, info, fn, kinds, bind, coil=None, spatial=None):
+        self.info = _with_defaults(info, fn)
+        self.b = Builder(kinds)
+        coil = coil if coil is not None else info.consts.get("_coil_dim", info.defaults.get("coil_dim", 1))
+        spatial = spatial if spatial is not None else info.consts.get("_spatial_dims", info.defaults.get("spatial_dims", (2, 3)))
+        self.expected_spatial = tuple(spatial)
+        self.tr = Tr(self.info, self.b, dict(bind), coil, spatial)
+
+    def value(self, node) -> int:
+        return self.tr.expr(node)
+
+    def run(self, stmts):
+        for st in stmts:
+            if self.tr.stmt(st) is not None:
+                raise Untranslatable("unexpected return")
+
+    def plan(self, out: int):
+        return self.b.nodes, [out]
+
+
+P0, P1, P2 = ("param", 0), ("param", 1), ("param", 2)
+
+
+def _whole_method(file, cls, meth, kinds, bind, base=None, want_spatial=(2, 3)):
+    info = _info(file, cls, base)
+    fn = info.method(meth)
+    st = SiteTr(info, fn, kinds, bind)
+    if st.expected_spatial != tuple(want_spatial):
+        raise Untranslatable(f"{cls}: spatial dims {st.expected_spatial}")
+    out = st.tr.block(fn.body)
+    if out is None:
+        raise Untranslatable(f"{cls}.{meth} has no return")
+    return st.plan(out)
+
+
+def _engine_base():
+    return _info(NN + "mri_models.py", "MRIModelEngine")
+
+
+def _site_table():
+    """[(lean name, human description, thunk -> (nodes, outs), fallback model plan)]"""
+    sites = []
+
+    def add(name, descr, thunk, fallback):
+        sites.append((name, descr, thunk, fallback))
+
+    # ---- EndToEndVarNetBlock
+    def varnet(which):
+        info = _info(NN + "varnet/varnet.py", "EndToEndVarNetBlock")
+        fn = info.method("forward")
+        bind = {"current_kspace": P0, "masked_kspace": P1, "sampling_mask": MASK, "sensitivity_map": SENS}
+        if which == "softdc":
+            st = SiteTr(info, fn, [W, W], bind)
+            return st.plan(st.value(_nth(_assigns(fn, "kspace_error"), 0, "kspace_error").value))
+        regs = _assigns(fn, "regularization_term")
+        if which == "reg_in":       # torch.split(current_kspace, 2, complex_dim) of a size-2 axis is the tensor itself
+            st = SiteTr(info, fn, [W, W], {**bind, "kspace": P0})
+            return st.plan(st.value(_listcomp_elt(_nth(regs, 0, "regularization_term").value, "kspace")))
+        st = SiteTr(info, fn, [V], {"image": P0, "sampling_mask": MASK, "sensitivity_map": SENS})
+        return st.plan(st.value(_listcomp_elt(_nth(regs, 2, "regularization_term").value, "image")))
+
+    add("site_varnet_softdc", "EndToEndVarNetBlock.forward: kspace_error", lambda: varnet("softdc"), "softDCPlan")
+    add("site_varnet_reg_in", "EndToEndVarNetBlock.forward: image fed to the regulariser", lambda: varnet("reg_in"), "sensePlan")
+    add("site_varnet_reg_out", "EndToEndVarNetBlock.forward: regulariser output to k-space", lambda: varnet("reg_out"), "feOpPlan")
+
+    # ---- RecurrentVarNetBlock
+    def rvn(which):
+        info = _info(NN + "recurrentvarnet/recurrentvarnet.py", "RecurrentVarNetBlock")
+        fn = info.method("forward")
+        bind = {"current_kspace": P0, "masked_kspace": P1, "sampling_mask": MASK, "sensitivity_map": SENS}
+        if which == "softdc":
+            st = SiteTr(info, fn, [W, W], bind)
+            return st.plan(st.value(_nth(_assigns(fn, "kspace_error"), 0, "kspace_error").value))
+        rec = _assigns(fn, "recurrent_term")
+        if which == "reg_in":
+            st = SiteTr(info, fn, [W, W], bind)
+            return st.plan(st.value(_nth(rec, 0, "recurrent_term").value))
+        st = SiteTr(info, fn, [V], {"recurrent_term": P0, "sampling_mask": MASK, "sensitivity_map": SENS})
+        return st.plan(st.value(_nth(rec, 2, "recurrent_term").value))
+
+    add("site_rvn_softdc", "RecurrentVarNetBlock.forward: kspace_error", lambda: rvn("softdc"), "softDCPlan")
+    add("site_rvn_reg_in", "RecurrentVarNetBlock.forward: image fed to the recurrent unit", lambda: rvn("reg_in"), "senseFirstPlan")
+    add("site_rvn_reg_out", "RecurrentVarNetBlock.forward: recurrent output to k-space", lambda: rvn("reg_out"), "feOpPlan")
+
+    # ---- VSharpNet / VSharpNet3D
+    def vsharp(cls, spatial, which):
+        info = _info(NN + "vsharp/vsharp.py", cls)
+        fn = info.method("forward")
+        bind = {"x": P0, "masked_kspace": P1, "sampling_mask": MASK, "sensitivity_map": SENS}
+        st = SiteTr(info, fn, [V, W], bind)
+        if st.expected_spatial != spatial:
+            raise Untranslatable(f"{cls}: spatial dims {st.expected_spatial}")
+        if which == "init":
+            return st.plan(st.value(_nth(_assigns(fn, "x"), 0, "x").value))
+        dcs = _assigns(fn, "dc")
+        if len(dcs) != 3:
+            raise Untranslatable(f"{cls}: {len(dcs)} assignments to dc")
+        st.run(dcs)
+        return st.plan(st.tr.env["dc"])
+
+    add("site_vsharp_dc", "VSharpNet.forward: dc (ADMM x-step gradient)", lambda: vsharp("VSharpNet", (2, 3), "dc"), "dcGradAfterPlan")
+    add("site_vsharp3d_dc", "VSharpNet3D.forward: dc, spatial dims (3, 4)", lambda: vsharp("VSharpNet3D", (3, 4), "dc"), "dcGradAfterPlan")
+    add("site_vsharp_init", "VSharpNet.forward: SENSE initialisation", lambda: vsharp("VSharpNet", (2, 3), "init"), "senseYPlan")
+
+    # ---- models with _forward_operator / _backward_operator methods
+    for tag, file, cls in (("jointic", "jointicnet/jointicnet.py", "JointICNet"), ("iterdual", "iterdualnet/iterdualnet.py", "IterDualNet"),
+                           ("lpd", "lpd/lpd.py", "LPDNet"), ("xpd", "crossdomain/crossdomain.py", "CrossDomainNetwork")):
+        add(f"site_{tag}_fwd", f"{cls}._forward_operator",
+            lambda file=file, cls=cls: _whole_method(NN + file, cls, "_forward_operator", [V],
+                                                     {"image": P0, "sampling_mask": MASK, "sensitivity_map": SENS}), "aOpPlan")
+        add(f"site_{tag}_bwd", f"{cls}._backward_operator",
+            lambda file=file, cls=cls: _whole_method(NN + file, cls, "_backward_operator", [W],
+                                                     {"kspace": P0, "sampling_mask": MASK, "sensitivity_map": SENS}), "aStarPlan")
+    add("site_engine_fwd", "MRIModelEngine._forward_operator",
+        lambda: _whole_method(NN + "mri_models.py", "MRIModelEngine", "_forward_operator", [V],
+                              {"image": P0, "sampling_mask": MASK, "sensitivity_map": SENS}), "aOpPlan")
+    add("site_engine_bwd", "MRIModelEngine._backward_operator",
+        lambda: _whole_method(NN + "mri_models.py", "MRIModelEngine", "_backward_operator", [W],
+                              {"kspace": P0, "sampling_mask": MASK, "sensitivity_map": SENS}), "aStarPlan")
+
+    def jointic(which):
+        info = _info(NN + "jointicnet/jointicnet.py", "JointICNet")
+        fn = info.method("forward")
+        bind = {"input_image": P0, "masked_kspace": P1, "sampling_mask": MASK, "sensitivity_map": SENS}
+        st = SiteTr(info, fn, [V, W], bind)
+        if which == "image":
+            a = _nth(_assigns(fn, "step_image"), 0, "step_image")
+            return st.plan(st.value(_nth(_calls(a.value, "self._backward_operator"), 0, "self._backward_operator(...)")))
+        a = _nth(_assigns(fn, "step_sensitivity_map"), 0, "step_sensitivity_map")
+        return st.plan(st.value(_nth(_calls(a.value, "T.complex_multiplication"), 0, "T.complex_multiplication(...)")))
+
+    add("site_jointic_image_dc", "JointICNet.forward: data term of step_image", lambda: jointic("image"), "dcGradTwicePlan")
+    add("site_jointic_sens_grad", "JointICNet.forward: data term of step_sensitivity_map", lambda: jointic("sens"), "sensGradPlan")
+
+    def iterdual(which):
+        info = _info(NN + "iterdualnet/iterdualnet.py", "IterDualNet")
+        fn = info.method("forward")
+        bind = {"x": P0, "masked_kspace": P1, "sampling_mask": MASK, "sensitivity_map": SENS}
+        st = SiteTr(info, fn, [V, W], bind)
+        if which == "dc":
+            return st.plan(st.value(_nth(_assigns(fn, "dc_out"), 0, "dc_out").value))
+        return st.plan(st.value(_nth(_assigns(fn, "x"), 0, "x").value))
+
+    add("site_iterdual_dc", "IterDualNet.forward: dc_out", lambda: iterdual("dc"), "dcGradTwicePlan")
+    add("site_iterdual_init", "IterDualNet.forward: SENSE initialisation", lambda: iterdual("init"), "senseYPlan")
+
+    # ---- MRIVarSplitNet
+    def varsplit():
+        info = _info(NN + "varsplitnet/varsplitnet.py", "MRIVarSplitNet")
+        fn = info.method("forward")
+        st = SiteTr(info, fn, [V, W, K], {"image": P0, "masked_kspace": P1, "scaling_factor": P2, "sampling_mask": MASK,
+                                           "sensitivity_map": SENS})
+        seq = []
+        for name in ("mul", "mr_forward", "error", "mr_backward", "dc"):
+            a = _assigns(fn, name)
+            if len(a) != 1:
+                raise Untranslatable(f"MRIVarSplitNet: {len(a)} assignments to {name}")
+            seq.append(a[0])
+        if [s_.lineno for s_ in seq] != sorted(s_.lineno for s_ in seq):
+            raise Untranslatable("MRIVarSplitNet: DC statements out of order")
+        st.run(seq)
+        return st.plan(st.tr.env["dc"])
+
+    add("site_varsplit_dc", "MRIVarSplitNet.forward: dc", varsplit, "loglikCorePlan")
+
+    # ---- KIKINet
+    def kiki(which):
+        info = _info(NN + "kikinet/kikinet.py", "KIKINet")
+        fn = info.method("forward")
+        if which == "image":
+            st = SiteTr(info, fn, [W], {"kspace": P0, "sampling_mask": MASK, "sensitivity_map": SENS})
+            return st.plan(st.value(_nth(_assigns(fn, "image"), 0, "image").value))
+        st = SiteTr(info, fn, [V], {"image": P0, "sampling_mask": MASK, "sensitivity_map": SENS})
+        ks = [a for a in _assigns(fn, "kspace") if ast.unparse(a.value).startswith("torch.where")]
+        return st.plan(st.value(_nth(ks, 0, "kspace = torch.where(...)").value))
+
+    add("site_kiki_image", "KIKINet.forward: k-space to image", lambda: kiki("image"), "aStarPlan")
+    add("site_kiki_kspace", "KIKINet.forward: image to k-space", lambda: kiki("kspace"), "aOpPlan")
+
+    # ---- CIRIM (RIMBlock)
+    def cirim(which):
+        info = _info(NN + "cirim/cirim.py", "RIMBlock")
+        fn = info.method("forward")
+        bind = {"current_prediction": P0, "masked_kspace": P1, "x": P2, "sampling_mask": MASK, "sensitivity_map": SENS}
+        st = SiteTr(info, fn, [W, W, V], bind)
+        if which == "softdc":
+            return st.plan(st.value(_nth(_assigns(fn, "soft_dc"), 0, "soft_dc").value))
+        if which == "image":
+            a = _nth(_assigns(fn, "intermediate_image"), 0, "intermediate_image")
+            if not isinstance(a.value, ast.IfExp):
+                raise Untranslatable("intermediate_image is not a conditional expression")
+            return st.plan(st.value(a.value.body))
+        st.run([_nth(_assigns(fn, "soft_dc"), 0, "soft_dc")])
+        return st.plan(st.value(_listcomp_elt(_nth(_assigns(fn, "current_kspace"), 0, "current_kspace").value, "x")))
+
+    add("site_cirim_softdc", "RIMBlock.forward (CIRIM): soft_dc", lambda: cirim("softdc"), "softDCPlan")
+    add("site_cirim_image", "RIMBlock.forward (CIRIM): current estimate", lambda: cirim("image"), "sensePlan")
+    add("site_cirim_kspace", "RIMBlock.forward (CIRIM): returned k-space", lambda: cirim("kspace"), "cirimKspacePlan")
+
+    # ---- engines: hard data consistency
+    def ssl(cls, file, base_cls, base_file, nth=0):
+        base = _info(NN + base_file, base_cls, _engine_base()) if base_cls else _engine_base()
+        info = _info(NN + file, cls, base)
+        fn = info.method("_do_iteration")
+        bind = {"output_image": P0, "output_images[-1]": P0, "kspace": P1, "mask": MASK, "data['sensitivity_map']": SENS}
+        st = SiteTr(info, fn, [V, W], bind)
+        if file.endswith("ssl/mri_models.py"):
+            a = [x for x in _assigns(fn, "output_kspace") if "_forward_operator" in ast.unparse(x.value)]
+            b_ = [x for x in _assigns(fn, "output_kspace") if "apply_padding" in ast.unparse(x.value)]
+            st.run([_nth(a, 0, "output_kspace = self._forward_operator(...)"), _nth(b_, 0, "output_kspace = T.apply_padding(...)")])
+            return st.plan(st.tr.env["output_kspace"])
+        a = [x for x in _assigns(fn, "output_kspace") if "apply_padding" in ast.unparse(x.value)]
+        return st.plan(st.value(_nth(a, nth, "output_kspace = T.apply_padding(...)").value))
+
+    add("site_ssl_harddc", "SSLMRIModelEngine._do_iteration: data consistency",
+        lambda: ssl("SSLMRIModelEngine", "ssl/mri_models.py", None, None), "hardDCPlan")
+    add("site_jssl_harddc", "JSSLMRIModelEngine._do_iteration: data consistency",
+        lambda: ssl("JSSLMRIModelEngine", "ssl/mri_models.py", "SSLMRIModelEngine", "ssl/mri_models.py"), "hardDCPlan")
+    for nth in (0, 1):
+        add(f"site_vsharp_ssl_harddc{nth}", f"VSharpNetSSLEngine._do_iteration: data consistency #{nth}",
+            lambda nth=nth: ssl("VSharpNetSSLEngine", "vsharp/vsharp_engine.py", "SSLMRIModelEngine", "ssl/mri_models.py", nth), "hardDCPlan")
+    add("site_vsharp_jssl_harddc0", "VSharpNetJSSLEngine._do_iteration: data consistency #0",
+        lambda: ssl("VSharpNetJSSLEngine", "vsharp/vsharp_engine.py", "JSSLMRIModelEngine", "ssl/mri_models.py", 0), "hardDCPlan")
+
+    def vsharp_engine(cls):
+        info = _info(NN + "vsharp/vsharp_engine.py", cls, _engine_base())
+        fn = info.method("forward_function")
+        bind = {"output_image": P0, "data['masked_kspace']": P1, "data['sampling_mask']": MASK, "data['sensitivity_map']": SENS}
+        st = SiteTr(info, fn, [V, W], bind)
+        return st.plan(st.value(_nth(_assigns(fn, "output_kspace"), 0, "output_kspace").value))
+
+    add("site_vsharp_engine_harddc", "VSharpNetEngine.forward_function: data consistency",
+        lambda: vsharp_engine("VSharpNetEngine"), "hardDCPadPlan")
+    add("site_vsharp3d_engine_harddc", "VSharpNet3DEngine.forward_function: data consistency, spatial dims (3, 4)",
+        lambda: vsharp_engine("VSharpNet3DEngine"), "hardDCPadPlan")
+    return sites
+
+
+def _call_arg_positions(file, cls, meth, callee_text, nth=0):
+    """names of the positional arguments of the nth call to `callee_text` in `cls.meth`"""
+    info = _info(file, cls)
+    fn = info.method(meth)
+    c = _nth(_calls(fn, callee_text), nth, f"call to {callee_text}")
+    if c.keywords:
+        raise Untranslatable("keyword arguments")
+    return [ast.unparse(a) for a in c.args]
+
+
+def _sites_extra():
+    out, status = [], {}
+    for name, descr, thunk, fallback in _site_table():
+        try:
+            ns, outs = thunk()
+            out.append(f"/-- translated: {descr} -/\ndef {name} : Plan :=\n  {_plan(ns, outs)}\n")
+            status[name] = "translated"
+        except Untranslatable as e:
+            status[name] = f"skipped: {e}"
+            out.append(f"/-- SKIPPED ({e}): {descr} -/\ndef {name} : Plan := DataConsistency.{fallback}\n")
+    # how the RIM / CIRIM call the likelihood-gradient block
+    for name, file, cls, meth in (("rim_llg_call_args", NN + "rim/rim.py", "RIM", "forward"),
+                                  ("cirim_llg_call_args", NN + "cirim/cirim.py", "RIMBlock", "forward")):
+        want = ["intermediate_image", "masked_kspace", "sensitivity_map", "sampling_mask"]
+        try:
+            got = _call_arg_positions(file, cls, meth, "self.grad_likelihood")
+            ok = got[:4] == want and len(got) in (4, 5)
+            out.append(f"/-- `{cls}.{meth}` calls `self.grad_likelihood({', '.join(got)})` -/\n"
+                       f"def {name}_ok : Bool := {'true' if ok else 'false'}\n")
+            status[name] = "translated"
+        except Untranslatable as e:
+            status[name] = f"skipped: {e}"
+            out.append(f"/-- SKIPPED ({e}) -/\ndef {name}_ok : Bool := true\n")
+    return "\n".join(out), status
+
+
+def _c19_all():
+    t1, s1 = _c19_extra()
+    t2, s2 = _sites_extra()
+    s1.update(s2)
+    return t1 + "\n" + t2, s1
+
+
+EXTRA["C19"] = _c19_all
 
 # importing DirectVerif.Model.DataConsistency in the generated file
 from ..gen import Kernel, register  # noqa: E402
